@@ -94,3 +94,40 @@ package j5reflect
 
 //@ func (*propSet).buildValue
 //@   requires prop.schema != nil && leafItems(prop.schema)
+
+// ---- names (C08) -----------------------------------------------------------------------------------
+// A field's name in its parent is a pure function of the field (property JSON name, map key or index).
+//@ spec func fieldName(f FieldContext) string
+//@ func (FieldContext).NameInParent
+//@   pure reads
+//@   ensures result == fieldName(recv)
+
+// Go values handed to the encoder: date and decimal values are never typed nil pointers.
+//@ import date_j5t "github.com/pentops/j5/j5types/date_j5t"
+//@ import decimal_j5t "github.com/pentops/j5/j5types/decimal_j5t"
+//@ func (ScalarField).ToGoValue
+//@   ensures date: result1 == nil && typeis(result0, *date_j5t.Date) ==> as(*date_j5t.Date, result0) != nil
+//@   ensures decimal: result1 == nil && typeis(result0, *decimal_j5t.Decimal) ==> as(*decimal_j5t.Decimal, result0) != nil
+//@ func scalarGoFromReflect
+//@   requires schema != nil
+//@   ensures date: result1 == nil && typeis(result0, *date_j5t.Date) ==> as(*date_j5t.Date, result0) != nil
+//@   ensures decimal: result1 == nil && typeis(result0, *decimal_j5t.Decimal) ==> as(*decimal_j5t.Decimal, result0) != nil
+// every scalar field carries its schema
+//@ type *scalarField invariant sf: sf != nil && sf.schema != nil && sf.schema.Proto != nil
+//@ type *scalarFieldFactory invariant f: f != nil && f.schema != nil && f.schema.Proto != nil
+//@ spec func scalarOK(s j5schema.FieldSchema) bool = typeis(s, *j5schema.ScalarSchema) ==> as(*j5schema.ScalarSchema, s) != nil && as(*j5schema.ScalarSchema, s).Proto != nil
+//@ func newFieldFactory
+//@   requires scalarOK(schema)
+//@   requires leaf: typeis(schema, *j5schema.EnumField) || typeis(schema, *j5schema.ScalarSchema)
+//@   ensures scalar: result1 == nil && typeis(result0, *scalarFieldFactory) ==> as(*scalarFieldFactory, result0) != nil && as(*scalarFieldFactory, result0).schema != nil && as(*scalarFieldFactory, result0).schema.Proto != nil
+//@ func (*scalarFieldFactory).buildField
+//@   ensures typeis(result, *scalarField) && as(*scalarField, result) != nil && as(*scalarField, result).schema == f.schema
+
+// scalar schemas reaching property building carry their proto form (established by j5schema)
+//@ spec func scalarsOK(p *j5schema.ObjectProperty) bool = scalarOK(p.Schema)
+//@   | && (typeis(p.Schema, *j5schema.ArrayField) ==> scalarOK(as(*j5schema.ArrayField, p.Schema).Schema))
+//@   | && (typeis(p.Schema, *j5schema.MapField) ==> scalarOK(as(*j5schema.MapField, p.Schema).Schema))
+//@ func buildProperty
+//@   requires scalarsOK(schema)
+//@ func (*propSet).buildValue
+//@   requires scalarsOK(prop.schema)
